@@ -74,7 +74,8 @@ func c06Judge(k c06Case) *vlib.Failure {
 		if err := m1.Reconfigure(m1.Config()); err != nil {
 			return vlib.Failf("m.Reconfigure(m.Config()) fails at round trip %d: %v (Config() = %+v)", step, err, *chain[len(chain)-1])
 		}
-		if i := firstDiff(want, observeBoth(m1, suite)); i >= 0 {
+		// debug mode is on here (observeBoth left it on) and the round trip must have kept it on
+		if i := firstDiff(want, observeOnOff(m1, suite)); i >= 0 {
 			return vlib.Failf("round trip %d changed the answer to request #%d (%s, debug=%t)", step, i%len(suite), suite[i%len(suite)], i >= len(suite))
 		}
 		chain = append(chain, m1.Config())
@@ -107,7 +108,15 @@ func c06Judge(k c06Case) *vlib.Failure {
 	if err := m1.Reconfigure(stable); err != nil {
 		return vlib.Failf("Reconfigure with an earlier Config() result fails: %v", err)
 	}
-	if i := firstDiff(want, observeBoth(m1, suite)); i >= 0 {
+	m1.SetDebug(true) // passthrough switched it off; from here on as above
+	other2 := routeOther.Config()
+	if err := m1.Reconfigure(&other2); err != nil {
+		return vlib.Failf("auxiliary configuration rejected: %v", err)
+	}
+	if err := m1.Reconfigure(stable); err != nil {
+		return vlib.Failf("Reconfigure with an earlier Config() result fails: %v", err)
+	}
+	if i := firstDiff(want, observeOnOff(m1, suite)); i >= 0 {
 		return vlib.Failf("after passthrough, another configuration and back (using an earlier Config() result) request #%d (%s, debug=%t) is answered differently", i%len(suite), suite[i%len(suite)], i >= len(suite))
 	}
 	if !cfgEqual(stable, m1.Config()) {
